@@ -13,11 +13,14 @@ MANIFEST = {
           'collection: no overflow panic, iterations <= command length whatever numkeys says), C16_range_map_bounded (RangeMap::from: <= 16384 '
           'iterations per range, map <= 16384 entries). Tied to the code by a counting allocator around the real decode call (equality of bytes '
           'requested with the model on every generated buffer) and by running hostile buffers / commands / ranges on the real code in child '
-          'processes with a small stack, an address-space limit and a timeout.',
+          'processes with a small stack, an address-space limit and a timeout. In addition (monitor only, not modelled) two-connection sequences run through the real '
+          'Session/handle_session path over loopback TCP: an extreme but well-formed CONFIG/UMCTL/CLUSTER/AUTH/admin command (names enumerated from the sources x boundary '
+          'values, with and without metadata installed) on connection A, after which A, B and a new connection C must still get replies and the proxy must not panic.',
   'note': 'PARTIAL. The model mirrors the tree WITH work/fix_C16_1..4.diff (and fix_C15.diff); on the unpatched tree the statements are false: '
           '"*1000000000000\\r\\n" aborts the process, "*9223372036854775807\\r\\n" panics (capacity overflow), ~2500 nested "*1\\r\\n" overflow a 2 MiB stack, '
           '"EVAL s 1000000000000000000 k" spins, "EVAL s 18446744073709551615 k" panics (add overflow, dev profile), a slot range '
-          '0-9223372036854775807 spins in RangeMap::from. Modelled: the parser, EVAL key collection, RangeMap::from. NOT modelled (only searched by '
+          '0-9223372036854775807 spins in RangeMap::from; found by the session sweep: "CONFIG SET slowlog_log_slower_than 9223372036854775807" (+OK) makes every later '
+          'command on every connection panic in SlowRequestLogger::add_slow_log (threshold * 1000 overflows, dev profile; work/fix_C16_5.diff). Modelled: the parser, EVAL key collection, RangeMap::from. NOT modelled (only searched by '
           'the child-process cases): Command::new/get_key, MGET/MSET/DEL splitting, blocking commands, UMFORWARD, RangeList::parse/compact '
           '(`end + 1` can overflow in the dev profile), SETCLUSTER/SETREPL token parsers, SlotMapData::new. Measured, not proved: wall time, real '
           'stack frame sizes (dev profile only), RSS; per decode CALL the cost is linear, re-parsing an incomplete packet on every read is '
@@ -104,6 +107,117 @@ RANGES = [['0-100'], ['0-16383'], ['0-16384'], ['5-9223372036854775807'], ['0-92
           ['0-5', '7-18446744073709551614'], ['9223372036854775807-9223372036854775807'], ['1-3'], ['0-0', '2-2', '4-4', '100-9999999999']]
 
 
+# ---------------- two-connection session sequences through the real Session / handle_session path ----------------
+
+U64 = 2**64 - 1
+VALUES = [b'0', b'1', b'2', str(U64).encode(), str(U64 + 1).encode(), b'-1', b'', b'abc', b'9' * 5000,
+          str(2**63 - 1).encode(), str(2**63).encode(), str(-2**63).encode()]
+
+def enumerate_from_code():
+    """command / field / sub-command names read out of the sources of the working tree"""
+    def rd(f): return open('/repo/src/' + f).read()
+    svc, exe, cmd, task = rd('proxy/service.rs'), rd('proxy/executor.rs'), rd('proxy/command.rs'), rd('migration/task.rs')
+    fields = sorted(set(re.findall(r'^\s*"([a-z_]+)" =>', svc, re.M)))
+    umctl = sorted(set(re.findall(r'sub_cmd\.eq\("([A-Z]+)"\)', exe)) | set(re.findall(r'Self::\w+ => "([A-Z]+)"', task)))
+    cluster = sorted(set(re.findall(r'str_ascii_case_insensitive_eq\(&sub_cmd, "(\w+)"\)', exe)))
+    cmds = sorted(set(re.findall(r'b"([A-Z]+)" => CmdType::', cmd)))
+    return {'config_fields': fields, 'umctl': umctl, 'cluster': cluster, 'cmd_types': cmds}
+
+def gen_sessions(chk, names):
+    quick = chk.tier == 'quick'
+    adm = []
+    F = names['config_fields'] + ['nosuchfield', 'SLOWLOG_SAMPLE_RATE']
+    for f in F:
+        for v in VALUES:
+            adm.append([b'CONFIG', b'SET', f.encode(), v])
+        adm.append([b'CONFIG', b'SET', f.encode()])
+        adm.append([b'CONFIG', b'GET', f.encode()])
+        adm.append([b'config', b'get', f.encode(), b'extra'])
+    adm += [[b'CONFIG'], [b'CONFIG', b'GET'], [b'CONFIG', b'SET'], [b'CONFIG', b'FOO'], [b'CONFIG', b'GET', b'\xff'], [b'CONFIG', b'GET', b'a' * 5000], [b'CONFIG', b'RESETSTAT']]
+    node, cl = b'127.0.0.1:7000', b'mydb'
+    epochs = [b'0', b'1', b'2', str(U64).encode(), str(U64 + 1).encode(), b'-1', b'', b'abc']
+    for sub in names['umctl']:
+        if sub == 'SHUTDOWN': continue                      # stops the proxy by design
+        sb = sub.encode()
+        adm.append([b'UMCTL', sb])
+        for v in [b'0', str(U64).encode(), b'-1', b'', b'x' * 5000]:
+            adm.append([b'UMCTL', sb, v])
+        adm.append([b'UMCTL', sb, b'a', b'b', b'c', b'd', b'e', b'f', b'g', b'h'])
+    for e in epochs:
+        for flags in [b'NOFLAGS', b'FORCE', b'COMPRESS', b'FORCE,COMPRESS', b'']:
+            adm.append([b'UMCTL', b'SETCLUSTER', b'v2', e, flags, cl, node, b'1', b'0-16383'])
+        adm.append([b'UMCTL', b'SETCLUSTER', b'v2', e, b'NOFLAGS', cl, node, str(U64).encode(), b'0-1'])
+        adm.append([b'UMCTL', b'SETCLUSTER', b'v2', e, b'NOFLAGS', cl, node, b'1', b'0-' + str(U64).encode()])
+        adm.append([b'UMCTL', b'SETCLUSTER', b'v2', e, b'NOFLAGS', cl, node, b'MIGRATING', b'1', b'0-' + str(2**63 - 1).encode(), e, b'127.0.0.1:5299', node, b'127.0.0.2:5299', b'127.0.0.2:7001'])
+        adm.append([b'UMCTL', b'SETCLUSTER', b'v2', e, b'NOFLAGS', cl, node, b'IMPORTING', b'1', b'0-100', e, b'127.0.0.2:5299', b'127.0.0.2:7001', b'127.0.0.1:5299', node])
+        adm.append([b'UMCTL', b'SETCLUSTER', b'v1', e, b'NOFLAGS', cl, node, b'1', b'0-16383'])
+        adm.append([b'UMCTL', b'SETCLUSTER', b'v2', e, b'NOFLAGS', cl, node, b'1', b'0-16383', b'PEER', b'127.0.0.3:5299', b'1', b'3-' + str(U64).encode(), b'CONFIG', cl, b'compression_strategy', b'disabled'])
+        adm.append([b'UMCTL', b'SETCLUSTER', b'v2', e, b'NOFLAGS', cl, node, b'1', b'0-16383', b'CONFIG', cl, b'migration_scan_count', str(U64).encode()])
+        adm.append([b'UMCTL', b'SETREPL', e, b'NOFLAGS'])
+        adm.append([b'UMCTL', b'SETREPL', e, b'FORCE', b'master', cl, node, b'1', b'127.0.0.9:7000', b'127.0.0.9:5299'])
+        adm.append([b'UMCTL', b'SETREPL', e, b'NOFLAGS', b'replica', cl, node, str(U64).encode(), b'127.0.0.9:7000', b'127.0.0.9:5299'])
+        adm.append([b'UMCTL', b'SETREPL', e, b'NOFLAGS', b'master', cl, node, b'0'])
+        for sw in [b'PRECHECK', b'PRESWITCH', b'FINALSWITCH']:
+            adm.append([b'UMCTL', sw, b'v', cl, b'MIGRATING', b'1', b'0-100', e, b'127.0.0.1:5299', node, b'127.0.0.2:5299', b'127.0.0.2:7001'])
+            adm.append([b'UMCTL', sw, b'v', cl, b'IMPORTING', str(U64).encode(), b'0-' + str(U64).encode(), e])
+    for v in [None, b'0', b'1', str(U64).encode(), str(U64 + 1).encode(), b'-1', b'abc', b'']:
+        adm.append([b'UMCTL', b'SLOWLOG', b'GET'] + ([v] if v is not None else []))
+    adm += [[b'UMCTL', b'SLOWLOG', b'RESET'], [b'UMCTL', b'SLOWLOG', b'RESET', str(U64).encode()], [b'UMCTL', b'SLOWLOG', b'FOO'], [b'UMCTL', b'DEBUG', b'FUTURE'], [b'UMCTL', b'\xff'], [b'UMCTL', b'']]
+    adm += [[b'AUTH'], [b'AUTH', b'x'], [b'AUTH', b'\xff\xfe'], [b'AUTH', b'p' * 5000], [b'AUTH', b'a', b'b'], [b'AUTH', b'']]
+    for sub in names['cluster'] + ['nosuch', 'NODES', 'KEYSLOT']:
+        sb = sub.encode()
+        adm += [[b'CLUSTER', sb], [b'CLUSTER', sb, b'k'], [b'CLUSTER', sb, b''], [b'CLUSTER', sb, b'k' * 5000], [b'CLUSTER', sb, b'\xff', b'x']]
+    adm.append([b'CLUSTER'])
+    for c in names['cmd_types']:
+        cb = c.encode()
+        if cb in (b'CONFIG', b'UMCTL', b'CLUSTER', b'AUTH'): continue
+        adm += [[cb], [cb, b'0'], [cb, str(U64).encode()], [cb, b'x' * 5000], [cb, b'a', b'b', b'c']]
+    seqs = []
+    for a in adm:
+        for pre in ('0', '1'):
+            seqs.append(pre + ' ' + ' '.join(hx(x) for x in a))
+    if quick:
+        # keep every CONFIG / UMCTL / AUTH / CLUSTER sequence; thin out nothing else either unless the budget is exceeded
+        pass
+    return seqs
+
+BAD_WORDS = ('closed', 'err', 'timeout')
+
+def eval_seq(res):
+    """None if the sequence result satisfies the property, else a description"""
+    m = re.match(r'adm=(\S+) A=(\S+) B=(\S+) C=(\S+) panics=(\d+)(.*)', res.strip())
+    if not m: return 'sequence did not complete: ' + res[:160]
+    adm_r, a, b, c, pn, msg = m.groups()
+    if int(pn): return 'panic in the proxy after a well-formed admin command:' + msg[:200]
+    if adm_r == 'timeout': return 'the admin command was neither answered nor was its connection closed'
+    for name, rs in (('A', a), ('B', b), ('C (new connection)', c)):
+        for w in rs.split(','):
+            if w in BAD_WORDS: return 'connection %s was not served after the admin command (%s)' % (name, rs)
+    return None
+
+def run_sessions(chk, seqs, batch=25):
+    """returns list of (seq, result) ; a batch whose child died is re-run one sequence per child"""
+    lines = ['sess ' + ' / '.join(seqs[i:i + batch]) for i in range(0, len(seqs), batch)]
+    _, outs = chk.run_impl('cost', lines, jobs=4, timeout=2400)
+    results = []
+    for bi, line in enumerate(lines):
+        members = seqs[bi * batch:(bi + 1) * batch]
+        o = outs[bi] if bi < len(outs) else ''
+        mt = re.match(r'exit=(\S+) ms=(\d+) ?(.*)', o)
+        parts = mt.group(3).split(' / ') if mt and mt.group(1) == 'ok' else []
+        if len(parts) == len(members) and all(eval_seq(p) is None for p in parts):
+            results += list(zip(members, parts))
+            continue
+        # isolate: fresh child per sequence
+        _, single = chk.run_impl('cost', ['sess ' + q for q in members], jobs=4, timeout=2400)
+        for qi, q in enumerate(members):
+            so = single[qi] if qi < len(single) else ''
+            m2 = re.match(r'exit=(\S+) ms=(\d+) ?(.*)', so)
+            if m2 and m2.group(1) == 'ok': results.append((q, m2.group(3)))
+            else: results.append((q, 'child-' + (m2.group(1) if m2 else 'lost') + ' ' + so[:120]))
+    return results
+
+
 def words_eval(reply_tokens):
     """classification of the real EVAL outcome comparable with the model's"""
     if len(reply_tokens) >= 2 and reply_tokens[0] == 'E' and reply_tokens[1] != '-':
@@ -115,7 +229,7 @@ def words_eval(reply_tokens):
 
 def run(chk):
     ok = vlib.standard_proof_phase(chk, TRUSTED, 'cost')
-    chk.cov['rule'] = ('cases = buffers (valid, truncated, mutated, declared counts far beyond the data, nesting 1..200) through one real decode call under the counting '
+    chk.cov['rule'] = ('cases = two-connection sequences over loopback TCP through the real Session/handle_session path (every CONFIG SET/GET field, UMCTL sub-command, CLUSTER sub-command and admin command type read from the sources x boundary values, before and after metadata is installed; afterwards connections A, B and a new C must be answered); buffers (valid, truncated, mutated, declared counts far beyond the data, nesting 1..200) through one real decode call under the counting '
                        'allocator; hostile buffers (10^12 / 2^63-1 element arrays, nesting to 100000, 200 KB lines), hostile commands (EVAL numkeys at the integer '
                        'limits, UMFORWARD / blocking timeouts / UMCTL SETCLUSTER with slot ranges to 2^64-1, huge MGET/MSET/DEL) through a real proxy handler and '
                        'hostile slot ranges through RangeMap::from, each in a child process. non-trivial = every case (the monitor constrains outcome, '
@@ -205,7 +319,25 @@ def run(chk):
         elif dis:
             disagreements.append({'case': line[:20000], 'impl': o[:600], 'model': m[:600], 'what': dis})
         if i % 101 == 0 or k != 'alloc' and i % 9 == 0: chk.sample({'case': line[:200], 'impl': o[:200], 'model': m[:200]}, limit=10)
-    chk.cov['traces_validated_against_impl'] = len(cases) - len(disagreements)
+    # two-connection sequences: extreme admin command on A, then A, B and a new connection C must still be served
+    names = enumerate_from_code()
+    seqs = gen_sessions(chk, names)
+    sres = run_sessions(chk, seqs)
+    sfail = 0
+    shist = {}
+    for q, res in sres:
+        chk.count('sess ' + q[:4000], True)
+        key = bytes.fromhex(q.split()[1]).decode('latin1').upper() if len(q.split()) > 1 and q.split()[1] != '-' else '?'
+        shist[key] = shist.get(key, 0) + 1
+        bad = eval_seq(res)
+        if bad:
+            sfail += 1; nfail += 1
+            chk.violation({'kind': 'monitor', 'case': 'sess ' + q, 'impl': res[:600], 'model': 'unmodelled (monitor only)', 'what': bad,
+                           'sequence': [' '.join(bytes.fromhex(t).decode('latin1')[:60] if t != '-' else "''" for t in q.split()[1:]), 'PING', 'GET k', 'MGET a b'],
+                           'metadata_installed_first': q.split()[0] == '1'})
+    chk.sub('sessions', sequences=len(sres), failures=sfail, admin_commands=shist,
+            enumerated_from_code={k: v for k, v in names.items()})
+    chk.cov['traces_validated_against_impl'] = len(cases) - len(disagreements) + len(sres) - sfail
     chk.sub('distribution', kinds=hist, monitor_failures=nfail, disagreements=len(disagreements), max_alloc_bytes_per_input_byte=round(maxratio, 1))
     if disagreements and not nfail:
         chk.violation({'kind': 'correspondence', 'correspondence': 'Model/Cost.v vs src/protocol/stateless.rs, proxy/executor.rs (EVAL), common/cluster.rs (RangeMap)',
@@ -223,6 +355,12 @@ def replay(data):
     _, impl = chk.run_impl('cost', [c]); _, model = chk.run_model('cost', [c])
     print('case :', c[:400]); print('impl :', impl); print('model:', model)
     o = impl[0] if impl else ''
+    if c.startswith('sess'):
+        m2 = re.match(r'exit=(\S+) ms=(\d+) ?(.*)', o)
+        bads = [eval_seq(p) for p in m2.group(3).split(' / ')] if m2 and m2.group(1) == 'ok' else ['child ' + o[:100]]
+        bads = [b for b in bads if b]
+        print('monitor:', bads or None)
+        return 1 if bads else 0
     bad = ('exit=' in o and 'exit=ok' not in o) or 'panic' in o
     if c.startswith('alloc') and 'total=' in o:
         total = int(re.search(r'total=(\d+)', o).group(1)); L = (len(c.split()[1]) // 2) if len(c.split()) > 1 and c.split()[1] != '-' else 0
